@@ -230,3 +230,14 @@ def audit_theorems(propfile, theorems):
             res[t] = {'ok': False, 'statement': stmt, 'assumptions': ax.strip()[:600]}
         text = after
     return res
+
+
+def coqchk(propfile):
+    """independent re-check of the compiled property file and everything it depends on (thorough tier)"""
+    mod = 'Grex.Props.' + os.path.basename(propfile)[:-2]
+    rc, out, err = sh(['timeout', '3400', 'coqchk', '-o', '-silent', '-Q', 'theories', 'Grex', '-Q', 'gen', 'GrexGen', mod], cwd=COQ, timeout=3500)
+    txt = out + err
+    m = re.search(r'\* Axioms:(.*?)\n\s*\n\* Constants', txt, re.S)
+    axioms = m.group(1).strip() if m else 'unknown'
+    ok = rc == 0 and axioms == '<none>' and 'relying on type-in-type: <none>' in txt and 'positivity is assumed: <none>' in txt and 'unsafe (co)fixpoints: <none>' in txt
+    return ok, axioms, txt[-1500:]
